@@ -34,6 +34,8 @@ ssize_t mpt_buffer_cut(MPT_STRUCT(buffer) *buf, size_t off, size_t len)
 		if (off > buf->_used) {
 			return MPT_ERROR(MissingData);
 		}
+		/* all data behind offset is removed */
+		len = buf->_used - off;
 		keep = off;
 	}
 	/* dat must be in range */
